@@ -123,6 +123,38 @@ Proof.
   rewrite V_eqb_refl. reflexivity.
 Qed.
 
+Lemma is_empty_spec d t :
+  is_empty d t = match content d t with [] => true | _ :: _ => false end.
+Proof.
+  pose proof (is_empty_content d t) as H.
+  destruct (content d t); destruct (is_empty d t); try reflexivity.
+  - apply H; reflexivity.
+  - destruct H as [H _]. discriminate (H eq_refl).
+Qed.
+
+Lemma copy_row_holds n it :
+  item_wf n it = true -> copy_holds n it (copy_row (it_d it) (it_tree it)) = true.
+Proof.
+  intros W. pose proof (item_wf_root n it W) as R.
+  unfold copy_holds, copy_row. rewrite deep_copy_id.
+  destruct R as [[es Hes] [D S]].
+  assert (R : wf_root n (it_tree it)) by (split; eauto).
+  rewrite (fiber_eq_refl n _ _ R).
+  rewrite (V_to_of_tree _ n (non_empty_depth _ _ _ D)).
+  rewrite non_empty_content, (proj2 (content_eqb_spec _ _) eq_refl).
+  assert (Hc : canonical (it_d it) (non_empty (it_d it) (it_tree it)) = true)
+    by (rewrite Hes; apply non_empty_canonical).
+  rewrite Hc, <- count_values_content, <- is_empty_spec, !V_eqb_refl. reflexivity.
+Qed.
+
+Lemma copies_model_hold n it :
+  item_wf n it = true -> copies_hold n it (copies_model it) = true.
+Proof.
+  intros W. unfold copies_hold, copies_model. rewrite repeat_length, Nat.eqb_refl.
+  apply forallb_forall. intros x Hx. apply repeat_spec in Hx. subst x.
+  apply copy_row_holds, W.
+Qed.
+
 Lemma forall2b_map {A} (f : A -> V -> bool) (g : A -> V) l :
   (forall x, In x l -> f x (g x) = true) -> forall2b f l (map g l) = true.
 Proof.
@@ -144,6 +176,7 @@ Proof.
   unfold c12_wf in W. rewrite forallb_forall in W.
   rewrite !andb_true_iff. repeat split.
   - apply forall2b_map. intros x Hx. apply item_model_holds, W, Hx.
+  - apply forall2b_map. intros x Hx. apply copies_model_hold, W, Hx.
   - apply forall2b_map. intros [x y] Hxy. apply in_pairs in Hxy. destruct Hxy as [Hx Hy].
     cbn [fst snd]. apply V_eqb_spec. f_equal. apply bool_eq_iff.
     rewrite same_content_spec.
@@ -206,26 +239,66 @@ Proof.
     + intros [_ [_ [_ [[t'' [E _]] _]]]]. discriminate.
 Qed.
 
+(* a row of the copy block satisfies the oracle iff the copy compared equal to its original both
+   ways and, used on its own, reported the emptiness, the count and a pruned form that the
+   original's content dictates *)
+Lemma copy_holds_meaning n it e1 e2 emp cnt ne s :
+  copy_holds n it (VL [e1; e2; emp; cnt; ne; s]) = true <->
+  let ct := content (it_d it) (it_tree it) in
+  e1 = VZ 1 /\ e2 = VZ 1
+  /\ emp = Vb (match ct with [] => true | _ :: _ => false end)
+  /\ cnt = VZ (Z.of_nat (length ct))
+  /\ (exists t', V_to_tree n ne = Some t' /\ content (it_d it) t' = ct
+                 /\ no_explicit_default (it_d it) t' = true
+                 /\ no_empty_below (it_d it) t' = true).
+Proof.
+  cbn zeta. unfold copy_holds.
+  rewrite !andb_true_iff, !V_eqb_spec, !is_one_spec.
+  destruct (V_to_tree n ne) as [t'|].
+  - unfold canonical. rewrite !andb_true_iff, content_eqb_spec. split.
+    + intros [[[[H1 H2] H3] H4] [H5 [H6 H7]]]. repeat split; try assumption. exists t'. auto.
+    + intros [H1 [H2 [H3 [H4 [t'' [E [H5 [H6 H7]]]]]]]]. inversion E; subst t''.
+      repeat split; assumption.
+  - split.
+    + intros [_ F]. discriminate.
+    + intros [_ [_ [_ [_ [t'' [E _]]]]]]. discriminate.
+Qed.
+
+Lemma copies_hold_meaning n it o :
+  copies_hold n it o = true <->
+  exists rows, o = VL rows /\ length rows = n_copy_forms
+               /\ Forall (fun row => copy_holds n it row = true) rows.
+Proof.
+  unfold copies_hold. destruct o as [z|rows].
+  - split; [discriminate|]. intros [rows [E _]]. discriminate.
+  - rewrite andb_true_iff, Nat.eqb_eq, forallb_forall, <- Forall_forall. split.
+    + intros [H1 H2]. exists rows. auto.
+    + intros [rows' [E [H1 H2]]]. inversion E; subst. auto.
+Qed.
+
 Lemma c12_holds_meaning c o :
   c12_holds c o = true <->
-  exists items,
+  exists items cps,
     o = VL [VL items;
             VL (map (fun xy => Vb (same_content (fst xy) (snd xy))) (pairs (k_items c)));
             VL (map (fun xy => Vb (zs_eqb (it_ids (fst xy)) (it_ids (snd xy))
-                                   && same_content (fst xy) (snd xy))) (pairs (k_items c)))]
-    /\ Forall2 (fun it row => item_holds (k_depth c) it row = true) (k_items c) items.
+                                   && same_content (fst xy) (snd xy))) (pairs (k_items c)));
+            VL cps]
+    /\ Forall2 (fun it row => item_holds (k_depth c) it row = true) (k_items c) items
+    /\ Forall2 (fun it blk => copies_hold (k_depth c) it blk = true) (k_items c) cps.
 Proof.
   unfold c12_holds. split.
   - intros H.
-    destruct o as [z|[|[z1|items] [|[z2|eqs] [|[z3|teqs] [|? ?]]]]]; try discriminate.
-    rewrite !andb_true_iff in H. destruct H as [[H1 H2] H3].
-    apply forall2b_Forall2 in H1.
+    destruct o as [z|[|[z1|items] [|[z2|eqs] [|[z3|teqs] [|[z4|cps] [|? ?]]]]]]; try discriminate.
+    rewrite !andb_true_iff in H. destruct H as [[[H1 H4] H2] H3].
+    apply forall2b_Forall2 in H1. apply forall2b_Forall2 in H4.
     apply (forall2b_eq_map (fun xy => Vb (same_content (fst xy) (snd xy)))) in H2.
     apply (forall2b_eq_map (fun xy => Vb (zs_eqb (it_ids (fst xy)) (it_ids (snd xy))
                                           && same_content (fst xy) (snd xy)))) in H3.
-    subst. exists items. split; [reflexivity|assumption].
-  - intros [items [-> H]]. rewrite !andb_true_iff. repeat split.
+    subst. exists items, cps. split; [reflexivity|split; assumption].
+  - intros [items [cps [-> [H H']]]]. rewrite !andb_true_iff. repeat split.
     + apply forall2b_Forall2, H.
+    + apply forall2b_Forall2, H'.
     + apply (forall2b_eq_map (fun xy => Vb (same_content (fst xy) (snd xy)))). reflexivity.
     + apply (forall2b_eq_map (fun xy => Vb (zs_eqb (it_ids (fst xy)) (it_ids (snd xy))
                                             && same_content (fst xy) (snd xy)))). reflexivity.
